@@ -1,4 +1,4 @@
-import BfeVerif.C38.Proofs
+import BfeVerif.C38.Shape
 /-!
   C38 — HTTP/2 responses carry exactly the handler's response.   Property theorems only.
 
@@ -43,29 +43,57 @@ theorem C38_bodyless_refused (env : Env) (s : St) (p : List Nat) (hw : s.wroteHe
   unfold rwWrite
   simp [hw, hs]
 
-/-! ### END_STREAM: full statement, and why it is only `_partial` for the code as it is -/
+/-! ### frame sequence and END_STREAM -/
 
-/-- full-strength statement: exactly one frame carries END_STREAM and it is the last one. -/
+/-- exactly one frame carries END_STREAM and it is the last one. -/
 def EndStreamOnce (o : List Frame) : Prop :=
   ∃ pre last, o = pre ++ [last] ∧ last.es = true ∧ ∀ f ∈ pre, f.es = false
 
+/-- **C38_end_stream_once** (full strength, for the code after the `hasNonemptyTrailers` fix): for every handler
+    script — any headers, status, writes, flushes, declared / undeclared / unset / invalid trailers, GET or
+    HEAD — exactly one frame of the response carries END_STREAM and it is the last frame. -/
+theorem C38_end_stream_once (env : Env) (isHead : Bool) (acts : List Act) :
+    EndStreamOnce (runHandler env isHead acts).out := by
+  rcases final_run env isHead acts with ⟨F, h⟩ | ⟨F, ds, last, h, hds, hl⟩
+  · exact ⟨[], _, by rw [h]; rfl, rfl, fun _ hf => by cases hf⟩
+  · refine ⟨Frame.headers F false :: ds, last, by rw [h]; rfl, ?_, ?_⟩
+    · rcases hl with ⟨p, hp⟩ | ⟨T, hT⟩
+      · rw [hp]; rfl
+      · rw [hT]; rfl
+    · intro f hf
+      rcases List.mem_cons.mp hf with hf | hf
+      · rw [hf]; rfl
+      · obtain ⟨p, hp⟩ := hds f hf; rw [hp]; rfl
+
+/-- **C38_trailers_after_body**: a response is one HEADERS frame, then only DATA frames, then at most one
+    more HEADERS frame (the trailers), which ends the stream; nothing follows the trailers. -/
+theorem C38_trailers_after_body (env : Env) (isHead : Bool) (acts : List Act) :
+    ∃ F e ds tl, (runHandler env isHead acts).out = Frame.headers F e :: (ds ++ tl) ∧
+      (∀ d ∈ ds, ∃ p e', d = Frame.data p e') ∧ (tl = [] ∨ ∃ T, tl = [Frame.headers T true]) := by
+  rcases final_run env isHead acts with ⟨F, h⟩ | ⟨F, ds, last, h, hds, hl⟩
+  · exact ⟨F, true, [], [], by rw [h]; rfl, (fun _ hf => by cases hf), Or.inl rfl⟩
+  · rcases hl with ⟨p, hp⟩ | ⟨T, hT⟩
+    · refine ⟨F, false, ds ++ [last], [], by rw [h]; simp, ?_, Or.inl rfl⟩
+      intro d hd
+      rcases List.mem_append.mp hd with hd | hd
+      · obtain ⟨q, hq⟩ := hds d hd; exact ⟨q, false, hq⟩
+      · rw [List.mem_singleton.mp hd, hp]; exact ⟨p, true, rfl⟩
+    · refine ⟨F, false, ds, [last], h, ?_, Or.inr ⟨T, by rw [hT]⟩⟩
+      intro d hd
+      obtain ⟨q, hq⟩ := hds d hd; exact ⟨q, false, hq⟩
+
 def envConst : Env := { sniff := fun _ => [64], now := [64] }
 
-/-- witness: a handler that declares a trailer (`Trailer: X-T1`) and never sets it — the trailers block is
-    empty, `writeResHeaders.writeFrame` then writes no frame at all, and END_STREAM is never sent. -/
+/-- the former witness of the `no-end-stream` defect (trailer `X-T1` declared, never set): before the fix the
+    response had no END_STREAM at all; now the DATA frame carries it. -/
 def witnessActs : List Act := [Act.add sTrailer [88, 45, 84, 49], Act.write [97]]
 
-theorem C38_witness_no_end_stream : ¬ EndStreamOnce (runHandler envConst false witnessActs).out := by
-  have h : (runHandler envConst false witnessActs).out.all (fun f => !f.es) = true := by decide
-  rintro ⟨pre, last, ho, hl, _⟩
-  rw [List.all_eq_true] at h
-  have := h last (by rw [ho]; simp)
-  rw [hl] at this; cases this
+example : ((runHandler envConst false witnessActs).out.map Frame.es) = [false, true] := by decide
 
-/-- the same response without the trailer declaration ends properly (non-vacuity of `EndStreamOnce`). -/
-example : EndStreamOnce (runHandler envConst false [Act.write [97]]).out := by
-  refine ⟨(runHandler envConst false [Act.write [97]]).out.take 1, Frame.data [97] true, by decide, rfl, ?_⟩
-  decide
+/-- a response with real trailers: HEADERS, DATA, trailers(END_STREAM) -/
+example : ((runHandler envConst false
+    [Act.add sTrailer [88, 45, 84, 49], Act.write [97], Act.flush, Act.add [88, 45, 84, 49] [118]]).out.map Frame.es)
+    = [false, false, true] := by decide
 
 /-- non-vacuity of C38_no_conn_specific: the handler sets `connection` / `Keep-Alive` / `UPGRADE` and a normal
     header; the model emits the normal one and none of the others. -/
